@@ -22,7 +22,8 @@ func GetSliceStartEndForLiquidations(sliceLen, offset, batchSize int) (int, int)
 	}
 	start := offset
 	end := offset + batchSize
-	if end >= sliceLen {
+	// offset + batchSize overflows int for a very large batch size: end wraps below start
+	if end >= sliceLen || end < start {
 		return start, sliceLen
 	}
 	return start, end
